@@ -25,7 +25,8 @@ vars == <<h, phase, runs>>
 
 \* budgets: "zero" = current count (no batch may start), "one" = current + 1 (exactly one batch),
 \* "bm1" = current + NBatch - 1 (one batch), "bp1" = current + NBatch + 1 (two batches),
-\* "b5" = five batches, "inf" = run to convergence (small n_eff target)
+\* "b5" = five batches, "b15" = fifteen batches (typically stops in the middle of the exploration phase,
+\* after the first bound insertions), "inf" = run to convergence (small n_eff target)
 Cmd(name, arg) == [op |-> name, arg |-> arg]
 
 Init == h = <<>> /\ phase = "new" /\ runs = 0
